@@ -32,6 +32,7 @@ import random
 import shutil
 import struct
 import sys
+import time
 import threading
 
 from vf import common, tlc, evidence
@@ -40,7 +41,7 @@ PROP = "C11"
 T0 = 1_600_000_000_000_000_000          # virtual clock origin (ns); model stat s <-> mtime T0 + s
 TOP = ("a", "a.b", "a0")
 SUB = ("a/x", "a/y")
-ACTIONS = ["CreateFile", "CreateLink", "MkDir", "Modify", "Rewrite", "ReplaceSameMtime", "Chmod", "Delete",
+ACTIONS = ["CreateFile", "CreateLink", "MkDir", "Modify", "Rewrite", "ReplaceSameMtime", "RewriteSameMtime", "Chmod", "Delete",
            "Rename", "ReplaceByFile", "ReplaceByLink", "ReplaceByDir", "HashOpen", "MatchRead", "MatchEOF",
            "MatchStop", "CheckHitQuiet", "CheckHitWrite", "CheckMissFirst", "CheckMissLater", "HashClose"]
 REACH = ["ReachTailCopy", "ReachStaleSkip", "ReachSlashOrder", "ReachDropLast"]
@@ -342,6 +343,22 @@ class Replay:
             st2 = os.lstat(path)
             if st2.st_ino == st.st_ino or st2.st_mtime_ns != st.st_mtime_ns or st2.st_size != st.st_size:
                 raise Harness("ReplaceSameMtime: stat data did not change as intended")
+        elif a == "RewriteSameMtime":
+            data = self.R["content"][e[1]]
+            st = os.lstat(path)
+            if len(data) != st.st_size:
+                raise Harness("RewriteSameMtime must keep the size")
+            with open(path, "r+b") as f:
+                f.write(data)
+            # restore the old mtime; the kernel stamps the ctime with a coarse clock: repeat until it has moved
+            for _ in range(2000):
+                os.utime(path, ns=(T0, st.st_mtime_ns))
+                st2 = os.lstat(path)
+                if st2.st_ctime_ns != st.st_ctime_ns:
+                    break
+                time.sleep(0.001)
+            if st2.st_ino != st.st_ino or st2.st_mtime_ns != st.st_mtime_ns or st2.st_size != st.st_size or st2.st_ctime_ns == st.st_ctime_ns:
+                raise Harness("RewriteSameMtime: stat data did not change as intended")
         elif a == "Chmod":
             if e[0] == "file":
                 os.chmod(path, self.R["mode"][e[2]])
